@@ -488,7 +488,7 @@ func main() {
 		flush()
 	}
 	// 1..4 roots merged together
-	for i := c.Count(6000, 80000); i > 0; i-- {
+	for i := c.Count(14000, 160000); i > 0; i-- {
 		k := 1 + c.Rng.Intn(4)
 		if c.Rng.Intn(8) == 0 {
 			k = 5 + c.Rng.Intn(2)
@@ -502,20 +502,20 @@ func main() {
 	flush()
 	// the random histories of the plan stream (several roots, octopus, criss-cross, duplicate / redundant
 	// edges, disconnected components, parents outside the set)
-	for i := c.Count(5000, 80000); i > 0; i-- {
+	for i := c.Count(10000, 160000); i > 0; i-- {
 		g := pl.RandomGraph(c.Rng, 14)
 		ins = append(ins, caseIn{Kind: "rnd", G: g, Dist: c.Rng.Intn(4), Salt: c.Rng.Intn(1 << 20)})
 		if len(ins) >= 4096 {
 			flush()
 		}
 	}
-	for i := c.Count(200, 4000); i > 0; i-- {
+	for i := c.Count(500, 8000); i > 0; i-- {
 		g := pl.RandomGraph(c.Rng, 40)
 		ins = append(ins, caseIn{Kind: "rndbig", G: g, Dist: c.Rng.Intn(4), Salt: c.Rng.Intn(1 << 20)})
 	}
 	flush()
 	// shapes of synth.GenHist (one root, merges among the last four commits, optionally closed to one head)
-	for i := c.Count(1500, 20000); i > 0; i-- {
+	for i := c.Count(3000, 40000); i > 0; i-- {
 		h := synth.GenHist(c.Rng, synth.GenOpts{MaxCommits: 4 + c.Rng.Intn(14), SingleHead: c.Rng.Intn(2) == 0, SameTick: true, Paths: 1, Authors: 1})
 		g := pl.FromParents(h.Parents, pl.Identity(h.N))
 		g.Order = randOrder(c.Rng, h.N)
